@@ -499,6 +499,9 @@ func writeNativeOverlay() (string, func(), error) {
 }
 
 func goTestNative(ovPath, pkg, replayPath string) (string, error) {
+	if abs, err := filepath.Abs(replayPath); err == nil {
+		replayPath = abs
+	}
 	cmd := exec.Command("go", "test", "-vet=off", "-count=1", "-overlay", ovPath, "-run", "^TestVerifReplay$", "-v", "./"+pkg)
 	cmd.Dir = repoDir
 	env := []string{}
